@@ -208,7 +208,12 @@ def d2_single_source(ctx, ic, ii, ff):
                    detail='the guard of the partial frame does not depend on the remainder / covered length '
                           'computed by fit_frames: whether elements remain beyond the last full frame is not '
                           'tested (spurious partial frames for overlapping steps)')
-    ctx.floor('C14 partial-frame yields', len(tail), 1)
+    if not tail:
+        # the partial frame is not a yield of its own (e.g. one loop that also produces the last, shorter frame): its guard
+        # is not decided here; the frame recurrence (D5) is the clause that speaks about its bounds
+        ctx.assume('R-FLOW', 'D2', ii, None, 'remainder-guard-uses-covered-length',
+                   'the partial-frame yield is guarded by include_remainder and by a value fit_frames returned',
+                   detail='no separate partial-frame yield found after the frame loop')
 
 
 def _orderings(names):
